@@ -96,6 +96,9 @@ ApplyPastify(m, o, e, obj, step) ==
 \* written under the configuration then in force (a bound that is no longer a whole number of periods is rejected then).
 \* Re-configuring an online monitor whose operators are built is outside the specification (the object is not examined further).
 ApplyConfig(m, o, e, obj, step) ==
+  \* a new tolerance with the same period (C13): the bounds mean what they meant, the counter of the next data set uses it
+  IF "tol" \in DOMAIN e /\ m.phase \in {"parsed", "offline"} /\ e.period = m.cfg.period
+  THEN R([m EXCEPT !.cfg = [m.cfg EXCEPT !.tol = e.tol]], o, ExcClass(TRUE, e, "config.exc", step), 0) ELSE
   IF ~IsWritten(obj) \/ m.phase \notin {"parsed", "offline"} THEN R(m, [o EXCEPT !.dead = TRUE], Ok, 0)
   ELSE LET st == NormStatus(obj.written, e.units) IN
        IF st = "overflow" THEN R(m, [o EXCEPT !.dead = TRUE], Ok, 1)
